@@ -28,6 +28,8 @@
      StripBijection   strips are non-empty, pairwise disjoint, in bijection with the lattice edges, and
                       every strip pixel has the blocks of exactly its edge's two cells on either side
      CoordCentre      Coord2(c) is the centre of BlockRect(c) (pixel (y, x) has its centre at data (x, y))
+     StripIndexing    the strip between two blocks is where the code's index arithmetic puts it
+                      (the four geometric theorems do not depend on the connections: checked once per (shape, ul))
      Faithful         the finished image has the stated size, satisfies every clause of the statement
                       and equals the closed form ModelRects
      Determined       (Deep) changing any single block / strip pixel of the finished image is rejected
@@ -106,37 +108,52 @@ RleVals(pats, vruns, q) ==
            : i \in {ii \in 1..Len(vruns) : Overlaps(vruns[ii], q[1], q[2])}}
 
 (* ---------------- the clauses of the statement, on an arbitrary image ---------------- *)
-PlotClausesOn(R, C, conn, ul, hasnv, nv, Vals(_)) ==
-  LET cells == CellsOf(R, C)
-      slots == InteriorSlots(R, C)
-      wall == IF hasnv THEN NaNV ELSE WallV
-      sv == [s \in slots |-> Vals(StripRect(s, ul))]
+\* bvs = {<<cell, set of values found in its block>>}, svs = {<<interior slot, set of values found in its strip>>}
+\* (sets of pairs, so that every rectangle of the image is scanned exactly once per record)
+StatedClauses(conn, hasnv, nv, bvs, svs) ==
+  LET wall == IF hasnv THEN NaNV ELSE WallV
       on(s) == Bit(conn, s[1], s[2], s[3])
-      passage(s) == IF hasnv THEN \E c \in SlotEdge(s) : sv[s] = {NvAt(nv, c)} ELSE sv[s] = {PassV}
-  IN (IF hasnv THEN (IF \A c \in cells : Vals(BlockRect(c, ul)) = {NvAt(nv, c)} THEN {} ELSE {"cell_values"})
-               ELSE (IF \A c \in cells : Vals(BlockRect(c, ul)) = {NodeV} THEN {} ELSE {"cell_blocks"}))
-     \cup (IF \A s \in slots : on(s) => passage(s) THEN {} ELSE {"connected_strip_not_passage"})
-     \cup (IF \A s \in slots : ~on(s) => sv[s] = {wall} THEN {} ELSE {"unconnected_strip_not_wall"})
+      passage(e) == IF hasnv THEN \E c \in SlotEdge(e[1]) : e[2] = {NvAt(nv, c)} ELSE e[2] = {PassV}
+  IN (IF hasnv THEN (IF \A e \in bvs : e[2] = {NvAt(nv, e[1])} THEN {} ELSE {"cell_values"})
+               ELSE (IF \A e \in bvs : e[2] = {NodeV} THEN {} ELSE {"cell_blocks"}))
+     \cup (IF \A e \in svs : on(e[1]) => passage(e) THEN {} ELSE {"connected_strip_not_passage"})
+     \cup (IF \A e \in svs : ~on(e[1]) => e[2] = {wall} THEN {} ELSE {"unconnected_strip_not_wall"})
+PlotClausesOn(R, C, conn, ul, hasnv, nv, Vals(_)) ==
+  StatedClauses(conn, hasnv, nv, {<<c, Vals(BlockRect(c, ul))>> : c \in CellsOf(R, C)},
+                                 {<<s, Vals(StripRect(s, ul))>> : s \in InteriorSlots(R, C)})
 
 (* ---------------- Layer M: the closed form of what the code paints ---------------- *)
-\* every slot (also the non-interior ones of the last row / column, whose strip lies on the border)
+\* the code's index arithmetic, for every slot (also the non-interior ones of the last row / column,
+\* whose strip lies on the border); equals StripRect on the interior slots (StripIndexing, checked by TLC)
 SlotStripRect(s, ul) == IF s[1] = 0 THEN <<(s[2] + 1) * ul, (s[2] + 1) * ul, s[3] * ul + 1, (s[3] + 1) * ul - 1>>
                                     ELSE <<s[2] * ul + 1, (s[2] + 1) * ul - 1, (s[3] + 1) * ul, (s[3] + 1) * ul>>
-ModelRects(R, C, conn, ul, hasnv, nv) ==
-  {<<BlockRect(c, ul), IF hasnv THEN NvAt(nv, c) ELSE NodeV>> : c \in CellsOf(R, C)}
-  \cup {<<SlotStripRect(s, ul), IF Bit(conn, s[1], s[2], s[3]) THEN (IF hasnv THEN NvAt(nv, LesserCell(s)) ELSE PassV)
-                                                              ELSE (IF hasnv THEN NaNV ELSE WallV)>> : s \in Slots(R, C)}
-  \cup {<<<<0, 0, 0, C * ul>>, WallV>>, <<<<1, R * ul, 0, 0>>, WallV>>}           \* top row, left column: background
+ModelBlockV(hasnv, nv, c) == IF hasnv THEN NvAt(nv, c) ELSE NodeV
+ModelStripV(conn, hasnv, nv, s) == IF Bit(conn, s[1], s[2], s[3]) THEN (IF hasnv THEN NvAt(nv, LesserCell(s)) ELSE PassV)
+                                                                 ELSE (IF hasnv THEN NaNV ELSE WallV)
+\* top row, left column: background; posts: background, or the overhang of the cell up-left of them
+ModelOtherRects(R, C, ul, hasnv, nv) ==
+  {<<<<0, 0, 0, C * ul>>, WallV>>, <<<<1, R * ul, 0, 0>>, WallV>>}
   \cup {<<<<i * ul, i * ul, j * ul, j * ul>>, IF hasnv THEN NvAt(nv, <<i - 1, j - 1>>) ELSE WallV>> : i \in 1..R, j \in 1..C}
-ModelClausesOn(R, C, conn, ul, hasnv, nv, Vals(_)) ==
-  (IF \A e \in ModelRects(R, C, conn, ul, hasnv, nv) : Vals(e[1]) = {e[2]} THEN {} ELSE {"M:image_model"})
-  \cup (IF hasnv /\ \E s \in InteriorSlots(R, C) : Bit(conn, s[1], s[2], s[3]) /\ Vals(StripRect(s, ul)) # {NvAt(nv, LesserCell(s))}
+ModelRects(R, C, conn, ul, hasnv, nv) ==
+  {<<BlockRect(c, ul), ModelBlockV(hasnv, nv, c)>> : c \in CellsOf(R, C)}
+  \cup {<<SlotStripRect(s, ul), ModelStripV(conn, hasnv, nv, s)>> : s \in Slots(R, C)}
+  \cup ModelOtherRects(R, C, ul, hasnv, nv)
+\* bvs as above, svs over ALL slots
+ModelClauses(R, C, conn, ul, hasnv, nv, bvs, svs, Vals(_)) ==
+  (IF /\ \A e \in bvs : e[2] = {ModelBlockV(hasnv, nv, e[1])}
+      /\ \A e \in svs : e[2] = {ModelStripV(conn, hasnv, nv, e[1])}
+      /\ \A e \in ModelOtherRects(R, C, ul, hasnv, nv) : Vals(e[1]) = {e[2]}
+   THEN {} ELSE {"M:image_model"})
+  \cup (IF hasnv /\ \E e \in svs : Interior(R, C, e[1]) /\ Bit(conn, e[1][1], e[1][2], e[1][3]) /\ e[2] # {NvAt(nv, LesserCell(e[1]))}
           THEN {"M:passage_value_of_unit_cell"} ELSE {})
 
 \* size first (the accessors index by position), then the statement, then the model
 ImageClauses(R, C, conn, ul, hasnv, nv, h, w, rectangular, Vals(_)) ==
   IF ~rectangular \/ h # ImgH(R, ul) \/ w # ImgW(C, ul) THEN {"image_size"}
-  ELSE PlotClausesOn(R, C, conn, ul, hasnv, nv, Vals) \cup ModelClausesOn(R, C, conn, ul, hasnv, nv, Vals)
+  ELSE LET bvs == {<<c, Vals(BlockRect(c, ul))>> : c \in CellsOf(R, C)}
+           svs == {<<s, Vals(SlotStripRect(s, ul))>> : s \in Slots(R, C)}
+       IN StatedClauses(conn, hasnv, nv, bvs, {e \in svs : Interior(R, C, e[1])})
+          \cup ModelClauses(R, C, conn, ul, hasnv, nv, bvs, svs, Vals)
 
 (* ---------------- the painting loop of the code, as a state machine ---------------- *)
 ConnsOf(r, c) == {ConnOfSlots(r, c, S) : S \in SUBSET InteriorSlots(r, c)}
@@ -172,10 +189,12 @@ Spec == Init /\ [][Next]_pvars
 
 (* ---------------- theorems checked on the finite scope ---------------- *)
 Start == pc = "node" /\ k = 0
+\* the geometry does not depend on the connections or the branch: checked once per (shape, ul)
+Geo == Start /\ ~g.nvb /\ SetSlots(g.R, g.C, g.conn) = {}
 MCells == CellsOf(g.R, g.C)
 MSlots == InteriorSlots(g.R, g.C)
 Partition ==
-  Start => LET rest == Posts(g.R, g.C, g.ul) \cup BorderSegs(g.R, g.C, g.ul)
+  Geo => LET rest == Posts(g.R, g.C, g.ul) \cup BorderSegs(g.R, g.C, g.ul)
                blocks == {BlockRect(c, g.ul) : c \in MCells}
                strips == [s \in MSlots |-> StripRect(s, g.ul)]
                Owners(y, x) == Cardinality({q \in blocks : InRect(y, x, q)}) + Cardinality({s \in MSlots : InRect(y, x, strips[s])})
@@ -186,7 +205,7 @@ Partition ==
 Sides(s, p) == IF s[1] = 0 THEN <<<<p[1] - 1, p[2]>>, <<p[1] + 1, p[2]>>>> ELSE <<<<p[1], p[2] - 1>>, <<p[1], p[2] + 1>>>>
 AdjacentPairs == {e \in SUBSET MCells : Cardinality(e) = 2 /\ \E a, b \in e : Adjacent(a, b)}
 StripBijection ==
-  Start =>
+  Geo =>
     /\ \A s \in MSlots : NonEmptyRect(StripRect(s, g.ul)) /\ Cardinality(RectPx(StripRect(s, g.ul))) = g.ul - 1
     /\ \A s, t \in MSlots : s # t => RectPx(StripRect(s, g.ul)) \cap RectPx(StripRect(t, g.ul)) = {}
     /\ \A e \in AdjacentPairs : Cardinality({s \in MSlots : SlotEdge(s) = e}) = 1
@@ -198,17 +217,20 @@ StripBijection ==
          /\ InRect(sd[2][1], sd[2][2], BlockRect(GreaterCell(s), g.ul))
          /\ SlotEdge(s) = {LesserCell(s), GreaterCell(s)}
 CoordCentre ==
-  Start => \A c \in MCells : LET b == BlockRect(c, g.ul) IN
+  Geo => \A c \in MCells : LET b == BlockRect(c, g.ul) IN
              /\ Coord2(c, g.ul) = <<b[3] + b[4], b[1] + b[2]>>
              /\ CellOfPt(<<b[3] + b[4], b[1] + b[2]>>, g.ul) = c
+StripIndexing == Geo => \A s \in MSlots : StripRect(s, g.ul) = SlotStripRect(s, g.ul)
 PaintsInside == pc \in {"down", "right"} => InImage(NodeRect(Cur)) /\ InImage(CodeStrip(0, Cur)) /\ InImage(CodeStrip(1, Cur))
 Faithful ==
   pc = "done" =>
     LET V(q) == RawVals(img, q) IN
-    ImageClauses(g.R, g.C, g.conn, g.ul, g.nvb, Nv, RawH(img), RawW(img), RawRectangular(img), V) = {}
+    /\ ImageClauses(g.R, g.C, g.conn, g.ul, g.nvb, Nv, RawH(img), RawW(img), RawRectangular(img), V) = {}
+    /\ PlotClausesOn(g.R, g.C, g.conn, g.ul, g.nvb, Nv, V) = {}
+    /\ \A e \in ModelRects(g.R, g.C, g.conn, g.ul, g.nvb, Nv) : V(e[1]) = {e[2]}
 \* the closed form covers the image exactly once (so Faithful pins every pixel)
 ModelCovers ==
-  Start => LET mr == ModelRects(g.R, g.C, g.conn, g.ul, g.nvb, Nv) IN
+  (Start /\ SetSlots(g.R, g.C, g.conn) = {}) => LET mr == ModelRects(g.R, g.C, g.conn, g.ul, g.nvb, Nv) IN
            \A y \in 0..(ImgH(g.R, g.ul) - 1), x \in 0..(ImgW(g.C, g.ul) - 1) : Cardinality({e \in mr : InRect(y, x, e[1])}) = 1
 \* the statement's clauses pin every block and strip pixel: any single change is rejected
 Palette == {WallV, PassV, NodeV, NaNV} \cup {NvAt(Nv, c) : c \in MCells}
